@@ -35,10 +35,16 @@ OnlyTakenApart(t) ==
           => CountKinds(t, Packaging) = 0
     /\ \A i \in 1..Len(t.a) : OnlyTakenApart(t.a[i])
 ConstProj(s) == \/ (s.k = "sub" /\ s.a[2].k \in {"int", "str"})
+(* a projection of a stage variable that no longer exists (a name free in the output but not in the *)
+(* input) is a projection of the intermediate package that was not compiled away                    *)
+LeftoverProj(in, out) ==
+    LET lost == FVars(out) \ FVars(in) IN
+    \E s \in SubTerms(out) : (ConstProj(s) \/ s.k = "attr") /\ s.a[1].k = "name" /\ s.a[1].s \in lost
 ShapeOK(in, out) ==
     ~OnlyTakenApart(in) \/
     /\ CountKinds(out, Packaging) <= CountKinds(ResultExpr(in), Packaging)
     /\ \A s \in SubTerms(out) : ~(ConstProj(s) /\ s.a[1].k \in Packaging)
+    /\ ~LeftoverProj(in, out)
 
 ---------------------------------------------------------------------------
 (* change_extension_functions_to_calls (C17): seq.Op(args) -> Op(seq, args) *)
